@@ -242,7 +242,7 @@ def mc_expect_ok(ctx, r, what):
 
 # ---------------------------------------------------------------- trace validation
 
-def tv_run(ctx, trace_files, module="QueueTrace", name="tv", timeout=900, heap="3g", props=(), workers=1):
+def tv_run(ctx, trace_files, module="QueueTrace", name="tv", timeout=900, heap="3g", props=(), workers=1, spec="Spec"):
     """Validate trace files in parallel (one TLC process each).  Returns list of results
     {file, fails:[(line, ev, check)], matched, total, error}."""
     d = spec_dir(ctx, name)
@@ -250,7 +250,7 @@ def tv_run(ctx, trace_files, module="QueueTrace", name="tv", timeout=900, heap="
     for i, tf in enumerate(trace_files):
         cfgname = "%s_%d.cfg" % (module, i)
         open(os.path.join(d, cfgname), "w").write(
-            "SPECIFICATION Spec\nCONSTANT TraceFile = %s\nPOSTCONDITION TraceAccepted\nCHECK_DEADLOCK FALSE\n" % json.dumps(tf))
+            "SPECIFICATION %s\nCONSTANT TraceFile = %s\nPOSTCONDITION TraceAccepted\nCHECK_DEADLOCK FALSE\n" % (spec, json.dumps(tf)))
         jobs.append((tf, cfgname))
 
     def one(job):
